@@ -1519,12 +1519,26 @@ def r6(ctx: Ctx) -> None:
     ctx.rule("C20.R6", "range reader: reads are clamped to the object, only in-range bytes are requested, a negative seek / "
              "unknown whence raise", 5)
     rf = ctx.prog.cls(SB + ".S3RangeFile")
+    grf0 = rf.methods.get("_get_range")
+    if grf0 is None:
+        # by role: the one method of the class (not a read API) whose request carries a Range header
+        byrole0 = [m_ for m_ in rf.methods.values() if m_.name not in ("read", "readall", "readinto", "seek")
+                   and any(kwarg(n_.ast, "Range") is not None for sc_ in [m_] + list(m_.nested.values()) for n_ in ctx.cfg(sc_).calls())]
+        grf0 = byrole0[0] if len(byrole0) == 1 else None
+    grn = grf0.name if grf0 is not None else "_get_range"
+    # (offset, length) form: the range function computes `last = offset + length - 1` itself
+    length_form = False
+    if grf0 is not None:
+        pn0 = [p.name for p in grf0.params if p.name != "self"]
+        if len(pn0) >= 2:
+            length_form = any(isinstance(x, ast.Assign) and norm_text(x.value).replace(" ", "") in (
+                f"{pn0[0]}+{pn0[1]}-1", f"{pn0[1]}+{pn0[0]}-1", f"({pn0[0]}+{pn0[1]})-1") for x in ast.walk(grf0.node))
     for name in ("readinto", "readall"):
         m = rf.methods.get(name)
         if m is None:
             raise AnalysisError(f"S3RangeFile.{name} vanished")
         g = ctx.cfg(m)
-        gr = ctx.calls(m, name="_get_range")
+        gr = ctx.calls(m, name=grn)
         brs = [b for b in g.nodes if b.kind == "branch" and "_pos" in b.text and "_size" in b.text]
         for c in gr:
             ok = False
@@ -1552,6 +1566,11 @@ def r6(ctx: Ctx) -> None:
                 ok = _clamped_count_guard(ctx, m, c)
             ctx.ob("C20.R6", m, f"{name}: no request at or past EOF", c, ok, "_get_range is only reachable when pos < size")
             last = c.ast.args[1] if isinstance(c.ast, ast.Call) and len(c.ast.args) > 1 else None
+            if length_form and last is not None and isinstance(c.ast, ast.Call):
+                # the caller hands (offset, length): the last byte requested is offset + length - 1
+                last = ast.BinOp(left=ast.BinOp(left=c.ast.args[0], op=ast.Add(), right=last), op=ast.Sub(), right=ast.Constant(value=1))
+                ast.copy_location(last, c.ast)
+                ast.fix_missing_locations(last)
             sl = ctx.slicer(m)
             org = sl.origins(last, c.id)
             txt = " ".join(norm_text(e) for e in org["exprs"])
@@ -1603,6 +1622,11 @@ def r6(ctx: Ctx) -> None:
                     ok = True
     ctx.ob("C20.R6", sk, "unknown whence raises", whence_br[-1] if whence_br else (rs[0] if rs else None), ok, "SET / CUR / END else ValueError")
     grf = rf.methods.get("_get_range")
+    if grf is None:
+        # by role: the one method of the class (not a read API) whose request carries a Range header
+        byrole = [m_ for m_ in rf.methods.values() if m_.name not in ("read", "readall", "readinto", "seek")
+                  and any(kwarg(n_.ast, "Range") is not None for sc_ in [m_] + list(m_.nested.values()) for n_ in ctx.cfg(sc_).calls())]
+        grf = byrole[0] if len(byrole) == 1 else None
     ok = False
     tmpl = None
     if grf is not None:
@@ -1620,4 +1644,12 @@ def r6(ctx: Ctx) -> None:
                 if rk is not None:
                     tmpl = _str_template(ctx, grf, nf, rk)
                     ok = len(pn_) >= 2 and tmpl == "bytes={%s}-{%s}" % (pn_[0], pn_[1])
+                    if not ok and len(pn_) >= 2 and tmpl is not None:
+                        # (offset, length) form: the last byte is a local `offset + length - 1` computed once in the range function
+                        m_ = re.fullmatch(r"bytes=\{(\w+)\}-\{(\w+)\}", tmpl)
+                        if m_ and m_.group(1) == pn_[0]:
+                            defs_ = [x.value for x in ast.walk(grf.node) if isinstance(x, ast.Assign) and len(x.targets) == 1
+                                     and isinstance(x.targets[0], ast.Name) and x.targets[0].id == m_.group(2)]
+                            ok = len(defs_) == 1 and norm_text(defs_[0]).replace(" ", "") in (
+                                f"{pn_[0]}+{pn_[1]}-1", f"{pn_[1]}+{pn_[0]}-1", f"{pn_[0]}-1+{pn_[1]}", f"({pn_[0]}+{pn_[1]})-1")
     ctx.ob("C20.R6", grf or sk, "Range header = bytes=first-last", None, ok, f"exactly the clamped interval is requested (header template: {tmpl!r})")
